@@ -256,7 +256,10 @@ def merge_and_report(cid, tier, spec, frags, failed_shards, workdir, seed, build
         else:
             new_vio.append(v)
     rdir = os.path.join(VERIF, "replays", cid)
-    for v in new_vio:
+    MAXREP = 30
+    if len(new_vio) > MAXREP:
+        lines.append("(%d distinct violation signatures; writing replay artefacts for the first %d)" % (len(new_vio), MAXREP))
+    for v in new_vio[:MAXREP]:
         os.makedirs(rdir, exist_ok=True)
         h = hashlib.sha256(v["sig"].encode()).hexdigest()[:12]
         path = os.path.join(rdir, h + ".json")
